@@ -107,6 +107,9 @@ class World:
         self.pid_max = int(env.get("pid_max", 4_194_304))
         self._pid_next = int(env.get("pid_next", 5000))
         self.cpu_count = int(env.get("cpu_count", 4))
+        # fault "pool.task_failed": one task of a map call raises in its worker (before or after doing its work); 0 = never,
+        # k = each map call with more than one task is hit with probability 1/k (a scheduler decision, recorded in the trace)
+        self.task_fail_one_in = int(env.get("task_fail_one_in", 0))
 
         g = sub_rng(self.seed, "parent-generators")
         nprs = _np.random.RandomState(g.getrandbits(32))
